@@ -36,6 +36,10 @@ STRENGTHENED = {
     "C14_w7": "the 300 s group deadline falls into an outage with nine or ten commands held", "C15_w7": "close() during the tear-down that follows a failed write (slow transport close)",
     "C16_w7": "flush held up by back-pressure while held entries pass their expiry", "C17_w7": "extended frames whose inner text length disagrees with the frame",
     "C18_w7": "another datagram (echo, short, foreign, invalid text) ahead of the console's answer", "C19_w7": "quick-timer durations with a seconds part",
+    "C01_w8": "nine or ten held messages and a request sent from inside the connected notification", "C09_w8": "init() with the process-wide packet counter at any value",
+    "C10_w8": "one frame naming the same zone / AC twice", "C11_w8": "AT4 zones that differ in turbo support, asked in either order",
+    "C12_w8": "a zone the client does not know at any place in a multi-entity frame", "C14_w8": "the new connection dies at the refresh's own write (C07 caught it as it stood)",
+    "C17_w8": "AT4 frame with a damaged (smaller) length whose payload contains the image of a valid frame",
     "C01_10": "a write stalled for up to 25 s without a fault", "C02_10": "writes failing together across the wrap of the packet counter",
     "C04_10": "AT5 mode change with a reported set-point outside the other mode's range", "C06_10": "damaged frame followed by the start of another in the same segment (also: SymBytes.__delitem__, connection cap against reset storms)",
     "C07_10": "a console that takes up to 20 s to accept", "C09_10": "AT5 zone numbering with a gap", "C14_10": "a frame left buffered on the abandoned connection while a subscriber is slow",
